@@ -31,6 +31,8 @@ NodeOf(j) == [id |-> j.id, up |-> j.up, inc |-> j.inc, died |-> j.died,
 Cluster(rec) == [i \in {rec.nodes[k].id : k \in 1..Len(rec.nodes)} |->
                     NodeOf(rec.nodes[CHOOSE k \in 1..Len(rec.nodes) : rec.nodes[k].id = i])]
 
+ActOf(a) == IF "voters" \in DOMAIN a THEN [a EXCEPT !.voters = {a.voters[k] : k \in 1..Len(a.voters)}] ELSE a
+
 Failed(g, ns) ==
        (IF C01_ElectionSafety(g) THEN {} ELSE {"C01_ElectionSafety"})
   \cup (IF C02_CommittedAgree(g, ns) THEN {} ELSE {"C02_CommittedAgree"})
@@ -41,6 +43,8 @@ Failed(g, ns) ==
   \cup (IF C05_OneVotePerTerm(g) THEN {} ELSE {"C05_OneVotePerTerm"})
   \cup (IF C06_MajorityDurable(g) THEN {} ELSE {"C06_MajorityDurable"})
   \cup (IF C15_NoSelfInflictedDeath(ns) THEN {} ELSE {"C15_NoSelfInflictedDeath"})
+  \cup (IF C08_OneVoterDelta(ns) THEN {} ELSE {"C08_OneVoterDelta"})
+  \cup (IF C11_DemotedLeaderStepsDown(ns) THEN {} ELSE {"C11_DemotedLeaderStepsDown"})
   \cup (IF C19_Ordered(ns) THEN {} ELSE {"C19_Ordered"})
   \cup (IF C19_LatestIsNewest(ns) THEN {} ELSE {"C19_LatestIsNewest"})
   \cup g.bad
@@ -55,7 +59,8 @@ Next ==
            start == rec.ev.kind = "init"
            g0    == IF start THEN GhostInit(DOMAIN after) ELSE gh
            b0    == IF start THEN after ELSE cur
-           g1    == GhostStep(g0, b0, after, rec.ev)
+           evx   == IF "acts" \in DOMAIN rec.ev THEN [rec.ev EXCEPT !.acts = {ActOf(rec.ev.acts[k]) : k \in 1..Len(rec.ev.acts)}] ELSE rec.ev
+           g1    == GhostStep(g0, b0, after, evx, DOMAIN after)
            seen  == IF start THEN {} ELSE {v[1] : v \in {w \in viol : w[2] = rec.sched}}
            new   == Failed(g1, after) \ seen
        IN /\ gh' = g1
